@@ -1,7 +1,7 @@
 FILE = "asn1tools/codecs/per.py"
 
 fields("Encoder", number_of_bits=Nat, value=Nat, chunks_number_of_bits=Nat, chunks=AbsList)
-fixup("Encoder", "self.value = self.value % (1 << self.number_of_bits)")
+fixup("Encoder", "self.number_of_bits %= 4200\nself.value = self.value % (1 << self.number_of_bits)")
 mutable("Encoder", "number_of_bits", "value", "chunks_number_of_bits", "chunks")
 invariant("Encoder", self.number_of_bits >= 0, 0 <= self.value, self.value < pow2(self.number_of_bits),
           self.chunks_number_of_bits >= 0)
